@@ -333,5 +333,5 @@ def tasks(ctx):
     t = []
     for sh in range(NSHARDS):
         t.append((task_enum, dict(shard=sh, seeds=seeds)))
-        t.append((task_random, dict(shard=sh, n=ctx.pick(60, 3000))))
+        t.append((task_random, dict(shard=sh, n=ctx.pick(400, 3000))))
     return t
